@@ -174,3 +174,62 @@ func VH_C08_WriteOptionalParts() {
 	}
 	vreach("end")
 }
+
+// C08 H5: writers on lists whose styles and regions set different subsets of attributes (a column, rule or XML
+// attribute present for one style is absent for the other): every writer returns normally.
+func VH_C08_WriteHeterogeneousStyles() {
+	vmode("int")
+	format := choose(5)
+	nm := vbound("attribute subsets", 8, 16)
+	s := NewSubtitles()
+	s.Metadata = &Metadata{SSAScriptType: []string{"v4.00", "v4.00+"}[choose(2)], Framerate: 25}
+	attrs := func(m int) *StyleAttributes {
+		sa := &StyleAttributes{}
+		if m&1 != 0 {
+			sa.SSAPrimaryColour = &Color{Red: 255}
+			sa.TTMLColor = vstrp("#ff0000")
+		}
+		if m&2 != 0 {
+			sa.SSABold = vboolp(true)
+			sa.SSAItalic = vboolp(false)
+			sa.TTMLFontStyle = vstrp("italic")
+			sa.STLItalics = vboolp(true)
+		}
+		if m&4 != 0 {
+			sa.SSAFontSize = vf64p(12)
+			sa.SSAMarginLeft = vintp(3)
+			sa.SSAAlignment = vintp(2)
+			sa.TTMLFontSize = vstrp("12px")
+		}
+		if m&8 != 0 {
+			sa.SSAFontName = "Arial"
+			sa.SSAOutlineColour = &Color{Blue: 1}
+			sa.SSABackColour = &Color{Green: 2, Alpha: 3}
+			sa.WebVTTStyles = []string{"::cue { color: blue }"}
+			sa.WebVTTAlign = "left"
+		}
+		return sa
+	}
+	m0, m1 := choose(nm), choose(nm)
+	s.Styles["a"] = &Style{ID: "a", InlineStyle: attrs(m0)}
+	s.Styles["b"] = &Style{ID: "b", InlineStyle: attrs(m1), Style: s.Styles["a"]}
+	s.Regions["r"] = &Region{ID: "r", InlineStyle: attrs(m1), Style: s.Styles["a"]}
+	s.Regions["q"] = &Region{ID: "q", InlineStyle: attrs(m0)}
+	s.Items = append(s.Items, &Item{StartAt: time.Second, EndAt: 2 * time.Second, Style: s.Styles["b"], Region: s.Regions["r"], InlineStyle: attrs(m0),
+		Lines: []Line{{Items: []LineItem{{Text: "x", InlineStyle: attrs(m1), Style: s.Styles["a"]}, {Text: "y"}}}}})
+	var buf bytes.Buffer
+	vreach("pre")
+	switch format {
+	case 0:
+		s.WriteToSRT(&buf)
+	case 1:
+		s.WriteToWebVTT(&buf)
+	case 2:
+		s.WriteToSSA(&buf)
+	case 3:
+		s.WriteToSTL(&buf)
+	case 4:
+		s.WriteToTTML(&buf)
+	}
+	vreach("end")
+}
